@@ -244,6 +244,9 @@ func TestVerifC02(t *testing.T) {
 		cases = append(cases, cdesc{"synthetic-layout", []int{800, 700, 900, 500, 1000}[k%5], 0, k})
 	}
 	cases = append(cases, cdesc{"kf-witness", 800, 0, 0}, cdesc{"kf-witness", 800, 0, 1})
+	for k, n := 0, e.pick(3, 24); k < n; k++ {
+		cases = append(cases, cdesc{"large-dictionary", []int{800, 900, 700}[k%3], 0, k})
+	}
 
 	for idx, cd := range cases {
 		cd := cd
@@ -251,6 +254,78 @@ func TestVerifC02(t *testing.T) {
 		e.run(idx, cd.gen, map[string]interface{}{"thr": thr, "doc": cd.doc, "k": cd.k}, func(cs *vCase) {
 			r := cs.rng
 			switch cd.gen {
+			case "large-dictionary":
+				// a corpus with more than 2^16 distinct words: word ids are handed to the
+				// diff library as code points, and not every integer is one (the surrogate
+				// range 0xD800-0xDFFF, values beyond 0x10FFFF). Documents whose words have
+				// ids around those edges, inputs that exchange a few of their words for
+				// other words of the same id range.
+				wd := func(i int) string {
+					b := []byte("q")
+					for k := 0; k < 4; k++ {
+						b = append(b, byte('a'+i%26))
+						i /= 26
+					}
+					return string(b) + "z"
+				}
+				c := NewClassifier(thr)
+				nw := 0
+				for d := 0; d < 68; d++ {
+					var sb strings.Builder
+					for i := 0; i < 1000; i++ {
+						sb.WriteString(wd(nw))
+						nw++
+						if i%12 == 11 {
+							sb.WriteByte('\n')
+						} else {
+							sb.WriteByte(' ')
+						}
+					}
+					c.AddContent("License", fmt.Sprintf("Filler%02d", d), "a.txt", []byte(sb.String()))
+				}
+				njudged := 0
+				for ti, start := range []int{0xD800 - 60, 0xD800 + 200 + r.Intn(1000), 0xE000 - 50, 20000 + r.Intn(1000), 0xFFFF - 50, 0xFFF0 + r.Intn(2000)} {
+					n := 60 + r.Intn(80)
+					words := make([]string, n)
+					for i := range words {
+						words[i] = wd(start + i)
+					}
+					r.Shuffle(n, func(i, j int) { words[i], words[j] = words[j], words[i] })
+					name := fmt.Sprintf("Target%d", ti)
+					c.AddContent("License", name, "t.txt", []byte(strings.Join(words, " ")))
+					for v := 0; v < 3; v++ {
+						in := append([]string{}, words...)
+						for k, ne := 0, 1+r.Intn(4); k < ne; k++ {
+							// another word whose id lies in the same neighbourhood (not one of the document's)
+							in[r.Intn(n)] = wd(start + n + 1 + r.Intn(300))
+						}
+						text := vOOVBlock(r, 1) + strings.Join(in, " ") + "\n" + vOOVBlock(r, 1)
+						b := []byte(text)
+						res := c.Match(b)
+						found := false
+						for _, m := range res.Matches {
+							if m.Name == name {
+								found = true
+							}
+						}
+						if !found {
+							continue
+						}
+						nj := vJudgeC02(cs, c, b, res, nil, "License/"+name+"/t.txt")
+						if cs.verdict != "ok" {
+							cs.setInput(b)
+							return
+						}
+						njudged += nj
+					}
+				}
+				e.count("large_dictionary_words", int64(len(c.dict.words)))
+				if njudged > 0 {
+					cs.nontrivial(cd.gen, cd.milli, cd.k)
+					e.count("matches_judged", int64(njudged))
+					e.count("matches_judged_large_dictionary", int64(njudged))
+				}
+				return
 			case "synthetic-layout", "kf-witness":
 				// corpus and input made of plain words: the physical line of every word is
 				// known from the construction alone
